@@ -446,6 +446,9 @@ func ruleR10_5(w *World, r *Report) {
 		{"jsonArray", "marshal", []action{
 			{"store", ".S", ".size", false, "", "the size is captured"},
 			{"call", "getNext", "", true, "", "the raw chain (tombstones included) is captured"},
+			{"store", ".T", "\"A\"", false, "", "the node is tagged as an array"},
+			{"store", ".A", "", false, "", "the array part is attached"},
+			{"store", ".N", "append(", true, "", "every node is appended"},
 		}},
 		{"jsonObject", "unmarshal", []action{
 			{"mapupdate", "mapSnapshot.Map", "", true, "", "every key is restored"},
@@ -454,6 +457,8 @@ func ruleR10_5(w *World, r *Report) {
 		{"jsonObject", "marshal", []action{
 			{"store", ".S", ".Size", false, "", "the size is captured"},
 			{"mapupdate", "", "getCreateTime", true, "", "every key is captured with the identity of its value"},
+			{"store", ".T", "\"O\"", false, "", "the node is tagged as an object"},
+			{"store", ".O", "", false, "", "the object part is attached"},
 		}},
 		{"jsonObject", "UnmarshalJSON", []action{
 			{"call", "unmarshalAsJSONType", "", true, "", "every stored node is rebuilt"},
@@ -461,6 +466,8 @@ func ruleR10_5(w *World, r *Report) {
 			{"call", "setParent", "", true, ".P != nil", "parents are re-linked"},
 			{"call", "unmarshal", "", true, "", "type-dependent state is restored"},
 			{"call", "addToCemetery", "", true, "isTomb(", "tombstones are put back into the cemetery"},
+			{"store", ".jsonType", "complit", true, "", "the root object takes over the stored root node"},
+			{"call", "findJSONType", "", true, "", "nodes are resolved through the rebuilt node map"},
 		}},
 		{"jsonObject", "MarshalJSON", []action{{"call", "marshal", "", true, "", "every node of the node map is captured"}}},
 		{"jsonPrimitive", "marshal", []action{
@@ -468,7 +475,7 @@ func ruleR10_5(w *World, r *Report) {
 			{"store", ".C", "$0.C", false, "", "the creation time is captured"},
 			{"store", ".D", "$0.D", false, "", "the deletion time is captured"},
 		}},
-		{"jsonElement", "marshal", []action{{"store", ".E", "", false, "", "the value is captured"}}},
+		{"jsonElement", "marshal", []action{{"store", ".E", "", false, "", "the value is captured"}, {"store", ".T", "\"E\"", false, "", "the node is tagged as an element"}}},
 		{"jsonElement", "unmarshal", []action{{"store", ".V", ".E", false, "", "the value is restored"}}},
 	}
 	for _, t := range table {
